@@ -59,7 +59,7 @@ package appencryption
 //@   ensures [C09:only-the-returned-key-s-secret-is-new] forall s securememory.Secret :: live(s) && !old(live(s)) ==> fresh(s) && err == nil && s == result.secret
 //@   ensures [C09:nothing-released] forall s securememory.Secret :: old(live(s)) ==> live(s)
 //@   ensures (err == nil) == (result != nil)
-//@   ensures err == nil ==> result.created == old(ekr.Created) && result.secret != nil && valid(result.secret)
+//@   ensures err == nil ==> result.created == old(ekr.Created) && result.secret != nil && valid(result.secret) && fresh(result.secret)
 //@   ensures [C10:kms-plaintext-wiped] forall i int :: 0 <= i && i < len(ret(DecryptKey, 1, 0)) ==> ret(DecryptKey, 1, 0)[i] == 0
 
 //@ func (*envelopeEncryption).intermediateKeyFromEKR
@@ -72,7 +72,7 @@ package appencryption
 //@   ensures [C09:only-new-secrets-become-cache-owned] forall s securememory.Secret :: cacheowned(s) && !old(cacheowned(s)) ==> fresh(s)
 //@   ensures msGrows(old(ms), ms)
 //@   ensures (err == nil) == (result != nil)
-//@   ensures err == nil ==> result.created == old(ekr.Created) && result.secret != nil && valid(result.secret)
+//@   ensures err == nil ==> result.created == old(ekr.Created) && result.secret != nil && valid(result.secret) && fresh(result.secret)
 //@   ensures [C10:ik-plaintext-wiped] forall i int :: 0 <= i && i < len(ret(WithBytesFunc, 1, 0)) ==> ret(WithBytesFunc, 1, 0)[i] == 0
 
 // ---- key caches (interface contract) ----
@@ -236,7 +236,7 @@ package appencryption
 //@   ensures [C09:only-new-secrets-become-cache-owned] forall s securememory.Secret :: cacheowned(s) && !old(cacheowned(s)) ==> fresh(s)
 //@   ensures [C02:ms-only-grows] msGrows(old(ms), ms)
 //@   ensures [C02:error-returns-nil] (err == nil) == (result != nil)
-//@   ensures [C02,C14:backed] err == nil ==> result.secret != nil && valid(result.secret) && ms[meta.ID][result.created]
+//@   ensures [C02,C14:backed] err == nil ==> result.secret != nil && valid(result.secret) && fresh(result.secret) && ms[meta.ID][result.created]
 //@   ensures [C02:key-carries-requested-stamp] err == nil ==> result.created == meta.Created
 
 //@ func (*envelopeEncryption).loadSystemKey
@@ -249,7 +249,7 @@ package appencryption
 //@   ensures [C09:nothing-released] forall s securememory.Secret :: old(live(s)) ==> live(s)
 //@   ensures [C02:ms-only-grows] msGrows(old(ms), ms)
 //@   ensures [C02:error-returns-nil] (err == nil) == (result != nil)
-//@   ensures [C02,C14:backed] err == nil ==> result.secret != nil && valid(result.secret) && ms[meta.ID][result.created]
+//@   ensures [C02,C14:backed] err == nil ==> result.secret != nil && valid(result.secret) && fresh(result.secret) && ms[meta.ID][result.created]
 //@   ensures [C02:key-carries-requested-stamp] err == nil ==> result.created == meta.Created
 
 //@ func decryptRow
@@ -302,7 +302,7 @@ package appencryption
 //@   ensures [C09:nothing-released] forall s securememory.Secret :: old(live(s)) ==> live(s)
 //@   ensures [C02:ms-only-grows] msGrows(old(ms), ms)
 //@   ensures [C02:error-returns-nil] (err == nil) == (result != nil)
-//@   ensures [C02,C14:backed] err == nil ==> result.secret != nil && valid(result.secret) && (id == sysid(e.partition) ==> ms[id][result.created])
+//@   ensures [C02,C14:backed] err == nil ==> result.secret != nil && valid(result.secret) && fresh(result.secret) && (id == sysid(e.partition) ==> ms[id][result.created])
 
 //@ func (*envelopeEncryption).createIntermediateKey$1
 //@   facet C02, C14
@@ -322,7 +322,7 @@ package appencryption
 //@   ensures [C09:only-new-secrets-become-cache-owned] forall s securememory.Secret :: cacheowned(s) && !old(cacheowned(s)) ==> fresh(s)
 //@   ensures [C02:ms-only-grows] msGrows(old(ms), ms)
 //@   ensures [C02:error-returns-nil] (err == nil) == (result != nil)
-//@   ensures [C02,C14:backed] err == nil ==> result.secret != nil && valid(result.secret) && ms[ikidOf(e.partition)][result.created]
+//@   ensures [C02,C14:backed] err == nil ==> result.secret != nil && valid(result.secret) && fresh(result.secret) && ms[ikidOf(e.partition)][result.created]
 
 //@ func (*envelopeEncryption).loadLatestOrCreateIntermediateKey
 //@   facet C02, C14, C09
@@ -334,7 +334,7 @@ package appencryption
 //@   ensures [C09:only-new-secrets-become-cache-owned] forall s securememory.Secret :: cacheowned(s) && !old(cacheowned(s)) ==> fresh(s)
 //@   ensures [C02:ms-only-grows] msGrows(old(ms), ms)
 //@   ensures [C02:error-returns-nil] (err == nil) == (result != nil)
-//@   ensures [C02,C14:backed] err == nil ==> result.secret != nil && valid(result.secret) && (id == ikidOf(e.partition) ==> ms[id][result.created])
+//@   ensures [C02,C14:backed] err == nil ==> result.secret != nil && valid(result.secret) && fresh(result.secret) && (id == ikidOf(e.partition) ==> ms[id][result.created])
 
 //@ func (*envelopeEncryption).EncryptPayload$1
 //@   facet C02, C14
